@@ -25,6 +25,11 @@ def carrying_messages(rng):
     yield 'StoryInsert', story_insert(mid, 'B', [new('A'), new('N1')]), 'N1'
     yield 'StoryInsert', story_insert(mid, 'B', [new('N1'), new('N1'), new('N2')]), 'N2'
     yield 'EAStoryInsert', element_action(mid, 'INSERT', [ref('storyID', 'B')], [[new('N1'), new('C'), new('N2')]]), 'N2'
+    # insert at the end: blank target, and no element_target at all
+    yield 'EAStoryInsert', element_action(mid, 'INSERT', [ref('storyID', None)], [[new('N1'), new('N2')]]), 'N1'
+    yield 'EAStoryInsert', element_action(mid, 'INSERT', None, [[new('N1')]]), 'N1'
+    yield 'EAItemInsert', element_action(mid, 'INSERT', ea_target('A', None), [[item('x1', slug='one'), item('x2')]]), 'A'
+    yield 'ItemInsert', item_insert(mid, 'A', None, [item('x1', slug='one')]), 'A'
     yield 'StoryReplace', story_replace(mid, 'B', [new('N1'), new('N2')]), 'N2'
     yield 'EAStoryInsert', element_action(mid, 'INSERT', [ref('storyID', 'B')], [[new('N1')]]), 'N1'
     yield 'EAStoryReplace', element_action(mid, 'REPLACE', [ref('storyID', 'B')], [[new('N1')]]), 'N1'
